@@ -4,6 +4,7 @@ mod crash;
 mod damage;
 mod exec;
 mod explore;
+mod faults;
 mod known;
 mod model;
 mod ops;
